@@ -23,7 +23,7 @@ from hv.common import rng_for
 ID = "C13"
 LEVEL = "exploration"
 RULE = ("one evaluation = one Hy source compiled in k fresh processes (PYTHONHASHSEED 0,1,2,3 quick; 0..11 and one "
-        "pseudo-random 32-bit seed thorough); a case is a batch of 40-80 sources. Sources are generated to pass "
+        "pseudo-random 32-bit seed thorough); a case is a batch of 30-60 sources. Sources are generated to pass "
         "through every name set of the compiler: nonlocal/global declarations of 2-6 names resolved at mixed levels "
         "(module, outer function, let, middle function), comprehensions leaking several setv/setx names in module, "
         "function and let scope, let with many bindings, defclass, match captures (or-patterns, mapping rest), "
@@ -32,7 +32,7 @@ RULE = ("one evaluation = one Hy source compiled in k fresh processes (PYTHONHAS
         "compiled AST has a global/nonlocal declaration, a leak assignment or an or-pattern with >= 2 names; "
         "distinct by source text.")
 FLOOR = {"quick": 500, "thorough": 500}
-BUDGET = {"quick": 27, "thorough": 480}
+BUDGET = {"quick": 22, "thorough": 480}
 CASE_TIMEOUT = 150
 REPLAY_TIMEOUT = 300
 NEEDS_EVENTS = True
@@ -228,7 +228,7 @@ def cases(seed, tier, shard, nshards):
     while True:
         rng = rng_for(seed, ID, shard, i)
         i += 1
-        n = rng.choice([40, 60, 80])
+        n = rng.choice([30, 45, 60])
         srcs = []
         for j in range(n):
             r = rng.random()
